@@ -467,6 +467,27 @@ _multiline_closing_pattern: re.Pattern[str] = re.compile(
 )
 
 
+_CLOSING_GROUP_DELIMS: dict[str, tuple[str, str]] = {
+    "closing_tag": (SINGLE_JINJA_TAG.open_delim, SINGLE_JINJA_TAG.close_delim),
+    "closing_comment": (SINGLE_JINJA_COMMENT.open_delim, SINGLE_JINJA_COMMENT.close_delim),
+    "closing_var": (SINGLE_JINJA_VAR.open_delim, SINGLE_JINJA_VAR.close_delim),
+    "closing_html": (SINGLE_HTML_COMMENT.open_delim, SINGLE_HTML_COMMENT.close_delim),
+}
+
+
+def _opening_tag_starts_on_line(line: str, match: re.Match[str]) -> bool:
+    """
+    Check whether the opening tag that ends at `match` was also opened on this line,
+    i.e. it is a single-line tag in the middle of prose (`Before {% f %}{% /f %} after`)
+    and not the tail of an opening tag that spans multiple lines.
+    """
+    for group_name, (open_delim, close_delim) in _CLOSING_GROUP_DELIMS.items():
+        if match.group(group_name) is not None:
+            before = line[: match.start()]
+            return before.rfind(open_delim) > before.rfind(close_delim)
+    return False
+
+
 def _fix_multiline_opening_tag_with_closing(text: str) -> str:
     """
     Ensure closing tags are on their own line when the opening tag spans multiple lines.
@@ -514,7 +535,7 @@ def _fix_multiline_opening_tag_with_closing(text: str) -> str:
 
         if not is_tag_start:
             match = _multiline_closing_pattern.search(line)
-            if match:
+            if match and not _opening_tag_starts_on_line(line, match):
                 # Find which named group matched and split at the closing tag
                 for group_name in ["closing_tag", "closing_comment", "closing_var", "closing_html"]:
                     if match.group(group_name) is not None:
